@@ -117,21 +117,30 @@ def plain(sensors, typed=False):
     return out
 
 
+def show(k):
+    """typed scalar / dict back to its plain repr (for messages)."""
+    if isinstance(k, tuple) and len(k) == 2 and isinstance(k[0], str):
+        return repr(k[1])
+    if isinstance(k, dict):
+        return "{" + ", ".join(f"{show(a)}: {show(b)}" for a, b in k.items()) + "}"
+    return repr(k)
+
+
 def where(a, b):
     """Name of the first field in which two trees differ (no ids: a structural fingerprint), and a description."""
     if set(a) != set(b):
-        return "node-set", f"nodes {sorted(map(str, a))} vs {sorted(map(str, b))}"
+        return "node-set", f"nodes {sorted(map(show, a))} vs {sorted(map(show, b))}"
     for n in a:
         for fld in ("id", "type", "pv", "bat", "sn", "sv", "hb"):
             if a[n][fld] != b[n][fld]:
-                return "node." + fld, f"node {n} {fld}: {a[n][fld]!r} vs {b[n][fld]!r}"
+                return "node." + fld, f"node {show(n)} {fld}: {show(a[n][fld])} vs {show(b[n][fld])}"
         ca, cb = a[n]["children"], b[n]["children"]
         if set(ca) != set(cb):
-            return "child-set", f"node {n} children {sorted(map(str, ca))} vs {sorted(map(str, cb))}"
+            return "child-set", f"node {show(n)} children {sorted(map(show, ca))} vs {sorted(map(show, cb))}"
         for c in ca:
             for fld in ("id", "type", "desc", "values"):
                 if ca[c][fld] != cb[c][fld]:
-                    return "child." + fld, f"node {n} child {c} {fld}: {ca[c][fld]!r} vs {cb[c][fld]!r}"
+                    return "child." + fld, f"node {show(n)} child {show(c)} {fld}: {show(ca[c][fld])} vs {show(cb[c][fld])}"
     return None, ""
 
 
@@ -654,9 +663,12 @@ class C11RoundTrip(_RestartWatch):
             fld, desc = where(pre, post)
             if fld is None:
                 fld, desc = "key-type", "same values, different key types"
-            keys_bad = any(k[0] != "int" for nd in post.values() for ch in nd["children"].values() for k in ch["values"])
+            keys_bad = ("node" if any(k[0] != "int" for k in post) else
+                        "child" if any(k[0] != "int" for nd in post.values() for k in nd["children"]) else
+                        "value-type" if any(k[0] != "int" for nd in post.values() for ch in nd["children"].values()
+                                            for k in ch["values"]) else None)
             if keys_bad:
-                self.fail(f"value-key-not-int/{fmt}", f"after the {fmt} round trip value-type keys are not integers: {desc}")
+                self.fail(f"key-not-int/{fmt}/{keys_bad}", f"after the {fmt} round trip {keys_bad} keys are not integers: {desc}")
             else:
                 self.fail(f"roundtrip-differs/{fmt}/{fld}", f"{fmt} save+load changed the state, before vs after: {desc}")
         for s in im.gw.sensors.values():
